@@ -2,7 +2,7 @@
    SIR simulator (fast_nonMarkov_SIR; fast_SIR on both of its paths),
    Gillespie_simple_contagion and Gillespie_complex_contagion.
    Models: Model/EventSIR.v, EventSIRConst.v, Simple.v, Complex.v (the extracted ones) and
-   Model/C05x.v (the IC-dict entry of simple contagion; the extracted checkers).
+   Model/InitChk.v (the IC-dict entry of simple contagion; the extracted checkers).
    Proofs: Proofs/C05xGeneric.v, C05xEsirInv.v, C05xEsir.v, C05xEsirTop.v.
 
    Reading guide.  [ic_domb nodes i0 r0 tmin tmax] = the property's domain: node list and the
@@ -21,7 +21,7 @@
    are proved); duplicates in the initial collections are outside the domain
    (Props/C04esir.v [C04_esir_domain_distinct_initial_nodes_needed]). *)
 From EoNV Require Import Prelude Samp Graph ListDict Gillespie EventSIR EventSIRConst Simple Complex SampP.
-From EoNV Require Import C05x C05xGeneric C05xEsirInv C05xEsir C05xEsirTop.
+From EoNV Require Import InitChk C05xGeneric C05xEsirInv C05xEsir C05xEsirTop.
 
 (* ---------------- event-driven SIR ---------------- *)
 (* fast_nonMarkov_SIR with initial_infecteds (a single node is the one-element list) and
